@@ -1,6 +1,8 @@
 package props
 
 import (
+	"os"
+	"time"
 	"bytes"
 	"fmt"
 	"github.com/robfig/soy/ast"
@@ -31,6 +33,43 @@ type C06Case struct {
 	// catalogue translated from an older version of the templates): unknown placeholder names, plural
 	// parts for messages that have none, plural parts without cases. The number selects the variants.
 	StaleMsgs int `json:"stale_msgs,omitempty"`
+	// Hostile > 0: the data is also handed to Tofu.Render as a Go value that holds something no Soy value
+	// can be made of (a map with integer keys, a channel, a function ...): an error, never a panic
+	Hostile int `json:"hostile,omitempty"`
+	// Deep (kind "deep"): the depth, given as data, of a recursion through {call}
+	Deep int `json:"deep,omitempty"`
+}
+
+// c06DeepBundle recurses as deep as its data says, in three ways.
+const c06DeepBundle = `{namespace zd}
+/** @param n */
+{template .quiet}{if $n > 0}{call .quiet}{param n: $n - 1 /}{/call}{/if}{/template}
+/** @param n */
+{template .all}{if $n > 0}{let $m: $n - 1 /}{call .all data="['n': $m]" /}{/if}{/template}
+/** @param n */
+{template .block}{if $n > 0}{call .echo}{param p}{call .block}{param n: $n - 1 /}{/call}{/param}{/call}{/if}{/template}
+/** @param p */
+{template .echo}{$p|noAutoescape}{/template}
+/** @param n */
+{template .fails}{if $n > 0}{call .fails}{param n: $n - 1 /}{/call}{else}{$n % $n}{/if}{/template}
+`
+
+func c06Hostile(k int) interface{} {
+	switch k % 7 {
+	case 1:
+		return map[int]string{1: "a"}
+	case 2:
+		return make(chan int)
+	case 3:
+		return func() {}
+	case 4:
+		return struct{ C chan int }{}
+	case 5:
+		return complex(1, 2)
+	case 6:
+		return map[string]interface{}{"deep": []interface{}{map[bool]int{true: 1}}}
+	}
+	return [2]int{1, 2}
 }
 
 // staleBundle builds the ill-fitting catalogue for the messages of a compiled bundle.
@@ -63,6 +102,9 @@ func staleBundle(cb *compiled, seed int) *mapBundle {
 
 func genC06(t *rapid.T) C06Case {
 	g := &gen.G{T: t, P: gen.Profile{Unicode: true, HTMLChars: true, BigInts: true, Directives: true}}
+	if rapid.IntRange(0, 1999).Draw(t, "deep") == 1777 { // (a value in mid-range: the library favours the ends)
+		return C06Case{Kind: "deep", Deep: rapid.SampledFrom([]int{10, 900, 1500, 2500, 20000, 300000, 1000000}).Draw(t, "depth"), Text: rapid.SampledFrom([]string{"quiet", "all", "block", "fails", "nested"}).Draw(t, "how")}
+	}
 	switch rapid.IntRange(0, 9).Draw(t, "kind") {
 	case 0, 1:
 		e := g.ChaosExpr([]string{"x", "ij"}, rapid.IntRange(0, 4).Draw(t, "depth"))
@@ -105,6 +147,9 @@ func genC06(t *rapid.T) C06Case {
 	if rapid.IntRange(0, 2).Draw(t, "stale") == 0 {
 		c.StaleMsgs = rapid.IntRange(1, 6).Draw(t, "staleSeed")
 		c.Mutations++
+	}
+	if rapid.IntRange(0, 5).Draw(t, "hostile") == 0 {
+		c.Hostile = rapid.IntRange(1, 7).Draw(t, "hostileKind")
 	}
 	c.Mutations = g.ChaosProgram(&c.Prog, rapid.SampledFrom([]int{5, 15, 40}).Draw(t, "rate"))
 	// data of arbitrary shape
@@ -160,6 +205,20 @@ func checkC06(c C06Case) Verdict {
 				return
 			}
 			panicked = catch(func() { _, err = soyhtml.EvalExpr(node) })
+		case "deep":
+			what = fmt.Sprintf("render of zd.%s with n = %d (a recursion as deep as its data says)", c.Text, c.Deep)
+			src := c06DeepBundle
+			if c.Text == "nested" {
+				// each level of the recursion stands inside thousands of nested blocks: few calls, much stack
+				src += "/** @param n */\n{template .nested}" + strings.Repeat("{if $n >= 0}", 3000) + "{if $n > 0}{call .nested}{param n: $n - 1 /}{/call}{/if}" + strings.Repeat("{/if}", 3000) + "{/template}\n"
+			}
+			cb, cerr, pn := compileBundle([]string{"deep.soy"}, []string{src}, nil)
+			if cerr != nil || pn != nil {
+				panicked = fmt.Sprintf("the harness's own bundle does not compile: %v %v", cerr, pn)
+				return
+			}
+			var buf bytes.Buffer
+			panicked = catch(func() { err = cb.tofu.Render(&buf, "zd."+c.Text, map[string]interface{}{"n": c.Deep}) })
 		case "globals":
 			what = fmt.Sprintf("ParseGlobals(%q)", c.Text)
 			panicked = catch(func() { _, err = soy.ParseGlobals(strings.NewReader(c.Text)) })
@@ -189,10 +248,24 @@ func checkC06(c C06Case) Verdict {
 				}
 				err = rd.Execute(&buf, toDataMap(c.Prog.Data))
 			})
+			if panicked == nil && c.Hostile > 0 {
+				obj := map[string]interface{}{}
+				for k, v := range c.Prog.Data {
+					obj[k] = toJSON(v)
+				}
+				obj["zzHostile"] = c06Hostile(c.Hostile)
+				what += fmt.Sprintf(" then Tofu.Render with the Go value %T among the data", obj["zzHostile"])
+				var buf2 bytes.Buffer
+				panicked = catch(func() { err = cb.tofu.Render(&buf2, c.Prog.Entry, obj) })
+			}
 		}
 	}
+	t0 := time.Now()
 	if !finishes(watchdogLimit(), run) {
 		hangExit("C06", c, what)
+	}
+	if os.Getenv("VERIF_C06_SLOW") != "" && time.Since(t0) > 200*time.Millisecond {
+		fmt.Printf("SLOW %v kind=%s deep=%d hostile=%d err=%v\n%s\n", time.Since(t0), c.Kind, c.Deep, c.Hostile, err != nil, trunc(what, 1500))
 	}
 	if !compiles {
 		return excluded("does not compile / parse (outside the property's domain)")
